@@ -222,7 +222,12 @@ class FastNetNeuronCommunicator(FastSerialCommunicator):
         # <driver_id>,<trigger>,<switch_id>,<mode>,<param_1>,<param_2>,<param_3>,<param_4>,<param_5>
         # https://fastpinball.com/fast-serial-protocol/net/dl/
 
-        current_hw_driver_config = FastDriverConfig(*msg.split(','))
+        fields = msg.split(',')
+        if len(fields) != 9:
+            # e.g. two responses run together after a lost <CR>: skipped like any malformed message
+            raise ValueError(f"driver config response with {len(fields)} fields instead of 9")
+
+        current_hw_driver_config = FastDriverConfig(*fields)
 
         try:
             driver_obj = self.drivers[int(current_hw_driver_config.number, 16)]
